@@ -410,6 +410,11 @@ def _sc_bin(tr, k, x, y):
     if k in ('lt', 'le', 'gt', 'ge', 'eq', 'ne'):
         if (x.e or y.e or not both) and abs(float(a - b)) <= 4 * (x.e + y.e) + 1e-9:
             tr.fragile = True
+        if k in ('eq', 'ne') and tr.floats and a == b:
+            # exact equality of two numerically equal numbers of different exactness is sympy's business: since
+            # sympy 1.13 Eq(Float(-16.0), Integer(-16)) is False (structural), numpy / python say True.  Wherever floats
+            # (python, numpy or sympy Floats) are involved, a tie in Eq / Ne is therefore not judged.
+            tr.fragile = True
         return {'lt': a < b, 'le': a <= b, 'gt': a > b, 'ge': a >= b, 'eq': a == b, 'ne': a != b}[k]
     raise core.MachineryError(k)
 
@@ -993,8 +998,12 @@ def prepare(case: Case):
 
 
 def _close(a, b, tol) -> bool:
-    if isinstance(a, list) or isinstance(b, list):
-        return isinstance(a, list) and isinstance(b, list) and len(a) == len(b) and all(_close(x, y, tol) for x, y in zip(a, b))
+    if isinstance(a, list) and isinstance(b, list):
+        return len(a) == len(b) and all(_close(x, y, tol) for x, y in zip(a, b))
+    if isinstance(a, list):          # a scalar stands for the constant array (as in the Lean judge)
+        return all(_close(x, b, tol) for x in a)
+    if isinstance(b, list):
+        return all(_close(a, y, tol) for y in b)
     if isinstance(a, bool) or isinstance(b, bool):
         return a is b
     return abs(a - b) <= tol
@@ -2024,6 +2033,25 @@ def fam_arith(ctx, n):
         cases.append(mk_arith(tree, env, {'op': op, 'okind': okind, 'other': tree_to_json(otree), 'then': 'exact' if exact else 'numeric'}))
         ctx.count('arith:op:' + op)
         ctx.count('arith:operand:' + okind)
+    # neutral / absorbing constants 0, 1, -1 of every number type as left and right operand of every operator: a fast path
+    # for `0 + e`, `1 * e` must not leak into `0 - e`, `1 / e`, `0 // e` …  (TimeType and sympy numbers only on the right:
+    # on the left their own operators run; ExpressionScalar has no `**`)
+    for i in range(max(n // 2, 60)):
+        cfg = Cfg(numbers='dyadic', bindex=False)
+        tree = gen_num(rng, cfg, rng.randint(0, 2))
+        if not tree_vars(tree) and rng.random() < 0.7:
+            tree = var(rng.choice(cfg.scalars))
+        op = rng.choice(PYOPS)
+        okind = rng.choice(['int', 'float', 'npint', 'npfloat'] * 2 + ([] if op.startswith('r') else ['tt', 'sympy']))
+        value = rng.choice([0, 0, 1, 1, -1])
+        otree = lit(value, 'dec' if okind in ('float', 'npfloat') else 'int')
+        env = gen_env(rng, tree, cfg, rng.choice([('int', 'float'), ('float',), ('int',)]))
+        # the expression's own value must not be neutral itself (0 - a with a = 0 would hide a dropped sign)
+        for x, (kd, v) in list(env.items()):
+            if not isinstance(v, list) and v in (0, 1, -1):
+                env[x] = (kd, v + 2)
+        cases.append(mk_arith(tree, normalise_env(env), {'op': op, 'okind': okind, 'other': tree_to_json(otree), 'then': 'numeric'}))
+        ctx.count('arith:neutral:%s:%s' % (op, value))
     return run_cases(ctx, cases)
 
 
@@ -2110,6 +2138,8 @@ def compare_impl(op, ltree, rtree, lkind, rkind):
         return ('exc', 'timeout', '')
     except Exception as e:  # noqa
         return ('exc', type(e).__name__, str(e)[:150])
+    if isinstance(r, numpy.bool_):
+        r = bool(r)
     if r is None or r is True or r is False:
         return r
     return ('odd', type(r).__name__)
@@ -2224,6 +2254,31 @@ def fam_compare(ctx, n):
         cfg = open_cfg
         envs = [gen_env(rng, ('vecx', l, rr), cfg, ('tt',)) for _ in range(K)]
         todo.append((op, l, rr, lkind, rkind, envs))
+    # constant expressions whose exact value is not a double (1/3, 1/10, big integers around 2**53 … 2**64) against the
+    # nearest doubles and the neighbouring integers, both orders: a decided answer is the comparison of the exact values
+    # (a float operand is its exact binary value)
+    for i in range(max(n // 3, 40)):
+        if rng.random() < 0.5:
+            exact = F(rng.choice([1, 2, -1, -2, 7, 1, 1]), rng.choice([3, 10, 7, 9, 6, 3, 10]))
+            const = lit(exact) if rng.random() < 0.7 else ('div', lit(exact.numerator), lit(exact.denominator))
+        else:
+            base = 2 ** rng.choice([53, 53, 54, 60, 63, 64]) * rng.choice([1, -1])
+            exact = F(base + rng.choice([1, -1, 3]))
+            const = lit(exact) if rng.random() < 0.7 else ('add', lit(base), lit(exact - base))
+        f = float(exact)
+        number = rng.choice([f, f, math.nextafter(f, math.inf), math.nextafter(f, -math.inf)])
+        if exact.denominator == 1 and rng.random() < 0.4:
+            number = int(exact) + rng.choice([-1, 0, 1, int(f) - int(exact)])
+            nkind = rng.choice(['int', 'int', 'expr'])
+        else:
+            nkind = rng.choice(['float', 'float', 'float', 'npfloat'])
+        ntree = lit(F(number), 'int' if isinstance(number, int) else 'frac')
+        op = rng.choice(list(CMPS))
+        if rng.random() < 0.5 and nkind != 'npfloat':
+            todo.append((op, ntree, const, nkind, 'expr', []))
+        else:
+            todo.append((op, const, ntree, 'expr', nkind, []))
+        ctx.count('compare:shape:near-double')
     # implementation answers, then one Lean batch
     lines, spans, answers = [], [], []
     for op, l, rr, lkind, rkind, envs in todo:
@@ -2244,7 +2299,7 @@ def fam_compare(ctx, n):
         for text in out[:1]:
             bad += 1
             ctx.disagreements += 1
-            ctx.violation('compare: ' + text, {'family': 'compare', 'kind': 'compare', 'op': op, 'left': tree_to_json(l), 'right': tree_to_json(rr),
+            ctx.violation('compare: ' + text + ' [left operand given as %s, right as %s]' % (lkind, rkind), {'family': 'compare', 'kind': 'compare', 'op': op, 'left': tree_to_json(l), 'right': tree_to_json(rr),
                                                'lkind': lkind, 'rkind': rkind, 'envs': [env_json(e) for e in envs], 'impl': str(ans)})
     return bad
 
